@@ -114,6 +114,42 @@ func rulePosCol(c *Ctx) []Obligation {
 						why = fmt.Sprintf("adds %s, which is not a count of characters", describeLeaf(lf))
 					}
 				}
+				// a constant step taken inside a loop counts iterations: the loop must not be one that runs once per BYTE
+				// of a text (an index loop bounded by len of a string or byte slice)
+				if why == "" && arith && f == fCol {
+					for h := loopHeaderOf(st.Block()); h != nil; {
+						for _, in := range h.Instrs {
+							phi, isPhi := in.(*ssa.Phi)
+							if !isPhi {
+								continue
+							}
+							for _, r := range *phi.Referrers() {
+								cmp, isB := r.(*ssa.BinOp)
+								if !isB || cmp.X != ssa.Value(phi) || (cmp.Op != token.LSS && cmp.Op != token.LEQ && cmp.Op != token.NEQ) {
+									continue
+								}
+								call, isC := cmp.Y.(*ssa.Call)
+								if !isC {
+									continue
+								}
+								if bi, isBI := call.Call.Value.(*ssa.Builtin); !isBI || bi.Name() != "len" {
+									continue
+								}
+								switch t := call.Call.Args[0].Type().Underlying().(type) {
+								case *types.Basic:
+									if t.Info()&types.IsString != 0 {
+										why = "is stepped once per iteration of a loop that runs over the BYTES of a string (index < len)"
+									}
+								case *types.Slice:
+									if b, isBasic := t.Elem().Underlying().(*types.Basic); isBasic && b.Kind() == types.Uint8 {
+										why = "is stepped once per iteration of a loop that runs over the bytes of a byte slice (index < len)"
+									}
+								}
+							}
+						}
+						break
+					}
+				}
 				if why == "" {
 					obs = append(obs, ok(R, con, c.InstrPos(st), "constant, restore, or old value plus constants / rune counts / newline counts"))
 				} else {
